@@ -131,6 +131,9 @@ func afFieldsLen(af []byte) int {
 	if fl&0x02 != 0 {
 		n += 1 + vconcrete(int(af[n]))
 	}
+	if fl&0x01 != 0 {
+		n += 1 + vconcrete(int(af[n]))
+	}
 	return n
 }
 
@@ -295,6 +298,26 @@ func vMuxData(pid uint16, afCase, hdrCase, plen int) (*MuxerData, gUnit) {
 		// private-data flag set, no private data bytes
 		u.hasAF, u.rai = true, vnondetBool()
 		d.AdaptationField = &PacketAdaptationField{RandomAccessIndicator: u.rai, HasTransportPrivateData: true, TransportPrivateDataLength: 0, TransportPrivateData: []byte{}}
+	case 5, 6:
+		// private data sized so that the PES header fills the first packet exactly (5) / misses by one byte (6)
+		hdr := []int{9, 14, 19}[hdrCase]
+		n := 181 - hdr
+		if afCase == 6 {
+			n++
+		}
+		u.hasAF = true
+		u.priv = vnondetBytes(n)
+		d.AdaptationField = &PacketAdaptationField{HasTransportPrivateData: true, TransportPrivateDataLength: n, TransportPrivateData: u.priv}
+	case 7, 8:
+		// adaptation field extension with only the legal time window (7) / only the piecewise rate (8)
+		u.hasAF, u.rai = true, vnondetBool()
+		x := &PacketAdaptationExtensionField{}
+		if afCase == 7 {
+			x.HasLegalTimeWindow, x.LegalTimeWindowIsValid, x.LegalTimeWindowOffset = true, vnondetBool(), vBits16(15)
+		} else {
+			x.HasPiecewiseRate, x.PiecewiseRate = true, vBits32(22)
+		}
+		d.AdaptationField = &PacketAdaptationField{RandomAccessIndicator: u.rai, HasAdaptationExtensionField: true, AdaptationExtensionField: x}
 	}
 	oh := &PESOptionalHeader{MarkerBits: 2}
 	switch hdrCase {
@@ -345,7 +368,18 @@ func (g *gMux) opWriteData(d *MuxerData, u gUnit) {
 	}
 	// the PES packets of the unit
 	npk := (len(out) - off) / 188
-	f4 := u.hasAF && len(u.priv) > 170
+	// F4 region: the first-packet adaptation field leaves fewer bytes than the PES header needs
+	f4 := false
+	if u.hasAF && len(u.priv) > 0 {
+		hdr := 9
+		if u.hasPTS {
+			hdr += 5
+		}
+		if u.hasDTS {
+			hdr += 5
+		}
+		f4 = 181-len(u.priv) < hdr
+	}
 	vassertK("C01.data.somepackets", "F4", f4, npk >= 1)
 	var pes []byte
 	for k := 0; k < npk; k++ {
@@ -431,6 +465,12 @@ func (g *gMux) opWritePacketAF(payloadLen, afKind int) {
 		// transport_private_data_flag set with transport_private_data_length 0 (legal, unusual)
 		m.hasAF = true
 		m.af = mAF{hasPriv: true, priv: []byte{}, rai: vnondetBool()}
+		room = 184 - 1 - refAFLen(&m.af)
+	case 5, 6, 7:
+		// adaptation field extension: legal time window only / piecewise rate only / seamless splice only
+		m.hasAF = true
+		m.af = mAF{hasExt: true}
+		m.af.ext = mAFExt{hasLTW: afKind == 5, hasPW: afKind == 6, hasSS: afKind == 7, ltwValid: vnondetBool(), ltwOffset: vBits16(15), pwRate: vBits32(22), spliceType: vBits8(4), dts: vTS33()}
 		room = 184 - 1 - refAFLen(&m.af)
 	}
 	if afKind != 0 {
@@ -736,7 +776,7 @@ func HarnessMuxStep(op, k, period, level int) {
 		d, u := vMuxData(pids[vrange(0, 1)], 3, 1, 20)
 		g.opWriteData(d, u)
 	case 7:
-		g.opWritePacketAF(vchoose(184, 185, 186), vrange(0, 4))
+		g.opWritePacketAF(vchoose(184, 185, 186), vrange(0, 7))
 	}
 	g.checkInv()
 	vreach("mux.step.end")
